@@ -122,6 +122,65 @@ def run (m : Mode) (a : St) : List Ev → St
   | [] => a
   | e :: es => run m (step m a e) es
 
+/-! ### the repaired hooks (fix 5a92fce): an answer that finds no open frame is not recorded
+
+    inboundHook(pck):  … search as above …
+      if frame == nil { if out != nil { a.mu.Unlock(); return }     -- inbound on an out-port = answer
+                        frame = &Frame{…InPck: pck}; append }
+    outboundHook(pck): … if frame == nil { if in != nil { a.mu.Unlock(); return }   -- outbound on an in-port = answer
+                        frame = &Frame{…OutPck: pck}; append }
+
+A packet can pass an endpoint before the agent's open hook has attached these hooks to it; the
+request is then unrecorded, and its answer must not be kept as an orphan frame (the next request
+would fill it: every later frame shifted by one). `Mode.fixed` above is the code before this
+repair; `inboundR` / `outboundR` / `stepR` / `runR` are the code now, and what the driver runs. -/
+
+def inboundR (k : Key) (pck : Nat) (fs : List Frame) : List Frame :=
+  match fillFirst (matchIn .fixed k) (fun f => { f with inPck := some pck }) fs with
+  | some fs' => fs'
+  | none =>
+    if k.outPort.isSome then fs
+    else fs ++ [{ sym := k.sym, inPort := k.inPort, outPort := k.outPort, inPck := some pck, outPck := none }]
+
+def outboundR (k : Key) (pck : Nat) (fs : List Frame) : List Frame :=
+  match fillFirst (matchOut .fixed k) (fun f => { f with outPck := some pck }) fs with
+  | some fs' => fs'
+  | none =>
+    if k.inPort.isSome then fs
+    else fs ++ [{ sym := k.sym, inPort := k.inPort, outPort := k.outPort, inPck := none, outPck := some pck }]
+
+def stepR (a : St) : Ev → St
+  | .inb p k pck => upd a p (inboundR k pck (a p))
+  | .outb p k pck => upd a p (outboundR k pck (a p))
+  | .exit p => upd a p []
+
+def runR (a : St) : List Ev → St
+  | [] => a
+  | e :: es => runR (stepR a e) es
+
+/-- The hook call is an answer that finds no open frame on its port (and is skipped). -/
+def orphan (a : St) : Ev → Bool
+  | .inb p k pck => k.outPort.isSome && (fillFirst (matchIn .fixed k) (fun f => { f with inPck := some pck }) (a p)).isNone
+  | .outb p k pck => k.inPort.isSome && (fillFirst (matchOut .fixed k) (fun f => { f with outPck := some pck }) (a p)).isNone
+  | .exit _ => false
+
+/-- No hook call of the history is a skipped answer (every answer finds its request's frame). -/
+def admitted (a : St) : List Ev → Bool
+  | [] => true
+  | e :: es => !orphan a e && admitted (stepR a e) es
+
+/-- An answer hook call: inbound on an out-port, outbound on an in-port. -/
+def Ev.isAnswer : Ev → Bool
+  | .inb _ k _ => k.outPort.isSome
+  | .outb _ k _ => k.inPort.isSome
+  | .exit _ => false
+
+/-- The hooks of a port are installed with exactly one of `in`, `out` (Agent.Load). -/
+def Ev.wf : Ev → Bool
+  | .inb _ k _ => k.inPort.isSome != k.outPort.isSome
+  | .outb _ k _ => k.inPort.isSome != k.outPort.isSome
+  | .exit _ => true
+
 /-! ### what the history says, per port -/
 
 /-- The frames a hook pair `k` looks after (under the repaired test). -/
@@ -189,6 +248,6 @@ def Flow.runWith {σ ε ω α : Type} (F : Flow σ ε ω) (hook : σ → Ev → 
     (r'.1, r.2 ++ r'.2)
 
 /-- The agent as an observer. -/
-def agentHook {σ : Type} (_ : σ) (c : Ev) (a : St) : St := step .fixed a c
+def agentHook {σ : Type} (_ : σ) (c : Ev) (a : St) : St := stepR a c
 
 end Uniflow.Agent
